@@ -2,7 +2,7 @@
 from hypothesis import strategies as st
 
 ASCII = list('abAB \t\n-:+01x')
-NONASCII = list('éßİǆ中') + ['\xa0', '\x1c', '\u2003', '\x85']   # incl. white space that only str.isspace() knows
+NONASCII = list('éßİǆ中') + ['\xa0', '\x1c', '\u2003', '\x85', '\x9b']   # incl. white space that only str.isspace() knows and the C1 control CSI (not an introducer here)
 
 
 def texts(min_size=0, max_size=10, esc=False, nonascii=True, alphabet=None):
